@@ -20,7 +20,7 @@ RULE = ("(shorthand key of the live table, root) for roots = letter + accidental
 def shards(tier, seed):
     out = []
     for L in T.LETTERS:
-        out.append({"name": "formula-" + L, "kind": "formula", "letter": L, "weight": 5, "after_history": L in "CB",
+        out.append({"name": "formula-" + L, "kind": "formula", "letter": L, "weight": 5, "after_history": L in "CB", "before_history": L in "DF",
                     "roots": "pure3" if tier == "quick" else "all3+pure6"})
     out.append({"name": "tables", "kind": "tables", "weight": 1})
     out.append({"name": "aliases", "kind": "aliases", "weight": 4,
@@ -179,6 +179,16 @@ def run(shard, ctx):
             ok = CT.matches(r1, s1, x) and CT.matches(r2, s2, y)
             ctx.check("polychord: both halves are formula chords", ok, {"shorthand": text}, None, [x, y])
             ctx.case(("poly", text))
+            if i % 4 == 0:
+                # three parts: 'X|Y|Z' is X over the polychord Y|Z
+                r3, s3 = rng.choice(roots), rng.choice(ks)
+                z = chords.from_shorthand(r3 + s3)
+                text3 = text + "|" + r3 + s3
+                exp3 = CT.polychord(x, CT.polychord(y, z))
+                st, c = ctx.call(chords.from_shorthand, text3)
+                ctx.check("polychord: 'X|Y' is Y's notes then X's notes, immediate repeats dropped", st == "ok" and c == exp3,
+                          {"shorthand": text3}, exp3, repr(c), mechanism="polychord-three-parts")
+                ctx.case(("poly3", text3))
         ctx.sample({"from_shorthand('Dm|G')": chords.from_shorthand("Dm|G")})
     else:
         ks = set(chords.chord_shorthand.keys())
@@ -186,8 +196,18 @@ def run(shard, ctx):
         roots = list(T.pure_names(2))
         sufalpha = "mM79651#b+susdimaugxoh "
         for i in range(shard["n"]):
-            cls = i % 3
-            if cls == 0:
+            cls = i % 4
+            if cls == 3:
+                # a polychord or slash chord with a malformed half is rejected as a whole
+                good = rng.choice(roots) + rng.choice(sorted(ks))
+                badhalf = rng.choice(["Hm", "Gfoo", "cm7", "C/H", "Xdim"])
+                s = (good + "|" + badhalf) if rng.random() < 0.5 else (badhalf + "|" + good)
+                if s.split("|")[0] == "C/H":
+                    s = good + "|" + badhalf
+                st, v = ctx.call(chords.from_shorthand, s)
+                ctx.check("reject: an unknown shorthand raises the format error", st == "exc" and isinstance(v, (FormatError, NoteFormatError)),
+                          {"shorthand": s}, "FormatError / NoteFormatError", repr(v), mechanism="reject:polychord-half")
+            elif cls == 0:
                 # first character is not A-G
                 first = rng.choice("abcdefghHIJKLOPRSTUVXYZmM-0123456789#! ♯")
                 s = first + "".join(rng.choice("CDE#bm7M/|") for _ in range(rng.randint(0, 5)))
@@ -215,4 +235,12 @@ def run(shard, ctx):
                           st == "exc" and isinstance(v, NoteFormatError), {"shorthand": s}, "NoteFormatError", repr(v),
                           mechanism="reject:bass")
             ctx.case(("bad", s))
+        # after all those refusals the ordinary chords are still built
+        for text, (r_, s_) in (("Dm7", ("D", "m7")), ("F#dim7", ("F#", "dim7")), ("Bb13", ("Bb", "13"))):
+            check_formula(ctx, r_, s_, text=text, clause="formula: root first, then each note on its letter at its distance",
+                          mech="after-refusals")
+        for text in ("Dm|G", "Am7|G7", "C|D|E", "Am/E"):
+            st, c = ctx.call(chords.from_shorthand, text)
+            ctx.check("polychord: both halves are formula chords", st == "ok" and isinstance(c, list) and len(c) >= 4, {"shorthand": text,
+                      "after": "%d refused strings" % shard["n"]}, "a chord", repr(c), mechanism="after-refusals")
         ctx.sample({"shorthand": "Cfoo", "raises": repr(ctx.call(chords.from_shorthand, "Cfoo")[1])})
